@@ -359,6 +359,7 @@ def run(report, index, tier):
         if auto_nonnull and f.name == 'p_error':
             body = [s for s in f.body]
             if len(body) >= 2 and isinstance(body[0], ast.Assign) and \
+                    isinstance(body[0].value, ast.Call) and \
                     ast.unparse(body[0].value.func).endswith('auto_semi') \
                     and isinstance(body[1], ast.If) and an.exits(
                         body[1].body):
